@@ -56,6 +56,17 @@ def kind_of(e):
     return "boolmask" if a.dtype == bool else "intlist"
 
 
+class IndexerModified(Exception):
+    pass
+
+
+_COUNTS = {}
+
+
+def ctx_count(k):
+    _COUNTS[k] = _COUNTS.get(k, 0) + 1
+
+
 def nonadjacent_int_list(idx):
     """NumPy treats ints and a list together as advanced indices; when they are separated by a
     slice/None/Ellipsis the broadcast dimension moves to the front. dask keeps it in place."""
@@ -88,8 +99,16 @@ def gen_case(rng, tier):
 
     a, chunks = make_array(rng, max_ext=9 if tier == "quick" else 12)
     kind = rng.choices(["basic", "basic", "basic", "chain", "npmask_full", "daskmask", "daskint", "vindex", "blocks", "unknown"], [10, 10, 10, 5, 2, 3, 3, 4, 4, 3])[0]
+    if kind == "basic" and len(a.shape) >= 2 and min(a.shape[:2]) >= 1 and a.shape[0] != a.shape[1] and rng.random() < 0.08:
+        kind = "shared_index"
     case = {"kind": kind, "shape": list(a.shape), "dtype": str(a.dtype), "chunks": [list(c) for c in chunks], "seed": None}
     g = G(rng)
+    if kind == "shared_index":
+        m = min(a.shape[:2])
+        case["ind"] = [rng.randrange(-m, m) for _ in range(rng.randint(1, 5))]
+        return case, a, chunks
+    if kind == "basic":
+        case["as_array"] = rng.random() < 0.3
     shape = a.shape
     if kind in ("basic", "chain"):
         idx = rand_index(g, shape, fancy=True, newaxis=True, wild=True)
@@ -132,6 +151,26 @@ def gen_case(rng, tier):
             # a second dask integer indexer (0-d or 1-d) in the same index tuple
             n2 = shape[case["axis"] + 1]
             case["second"] = {"zero_d": rng.random() < 0.5, "ind": [rng.randrange(-n2, n2) for _ in range(rng.randint(1, 4))]}
+    elif kind == "vindex" and rng.random() < 0.35:
+        # 4-d / 5-d arrays with several point indexers on non-adjacent axes, the first axis sliced
+        nd = rng.choice([4, 4, 5])
+        shp = tuple(rng.randint(1, 4) for _ in range(nd))
+        a = leaf_values(shp, rng.choice(["i8", "f8"]), "perm", rng.randrange(10**6))
+        chunks = rand_chunks(rng, shp)
+        shape = list(shp)
+        case.update({"shape": list(shp), "dtype": str(a.dtype), "chunks": [list(c) for c in chunks]})
+        npts = rng.randint(1, 4)
+        pattern = rng.choice([[1, 3], [1, 3], [2, 4] if nd == 5 else [1, 3], [1, 2, 3][: rng.randint(2, 3)], [0, 2], [1, nd - 1]])
+        idx = []
+        for ax in range(nd):
+            n = shp[ax]
+            if ax in pattern:
+                idx.append([rng.randrange(-n, n) for _ in range(npts)])
+            elif rng.random() < 0.2:
+                idx.append(rng.randrange(-n, n))
+            else:
+                idx.append(["s", None, None, None] if rng.random() < 0.7 else ["s", rng.choice([None, 0, 1]), None, rng.choice([None, 1, 2])])
+        case["vidx"] = idx
     elif kind == "vindex":
         nd = len(shape)
         idx = []
@@ -202,9 +241,23 @@ def evaluate(case, a, chunks):
         return e, r
 
     if kind == "basic":
-        idx = dec_index(case["idx"])
+        idx = dec_index(case["idx"], as_array=bool(case.get("as_array")))
         cls_idx = idx
+        keep = [(i, v.copy()) for i, v in enumerate(idx) if isinstance(v, np.ndarray)]
         e, r = both(lambda: a[idx], lambda: x[idx])
+        for i, v0 in keep:
+            ctx_count("indexer_arrays_audited")
+            if not np.array_equal(idx[i], v0):
+                r = ("raises", IndexerModified(f"the caller's index array (position {i}) was {v0.tolist()} and is {idx[i].tolist()} after x[idx]"))
+    elif kind == "shared_index":
+        # ONE index array (with negative entries) used on two axes of different length
+        ind = np.array(case["ind"], dtype=np.intp)
+        ind0 = ind.copy()
+        cls_idx = (list(case["ind"]),)
+        e, r = both(lambda: a[ind0][:, ind0], lambda: x[ind][:, ind])
+        ctx_count("indexer_arrays_audited")
+        if not np.array_equal(ind, ind0):
+            r = ("raises", IndexerModified(f"the caller's index array was {ind0.tolist()} and is {ind.tolist()} after x[ind][:, ind]"))
     elif kind == "chain":
         from vf.gen import rand_index
 
@@ -384,6 +437,9 @@ def run_one(rng, ctx):
     # make the case replayable: store the leaf seed by regenerating deterministically
     case["_a"] = None
     r = judge(case, a, chunks, ctx)
+    for k_, v_ in _COUNTS.items():
+        ctx.count(k_, v_)
+    _COUNTS.clear()
     del case["_a"]
     if len(ctx.samples) < 3:
         ctx.sample({k: v for k, v in case.items() if k in ("kind", "shape", "chunks", "idx", "vidx", "bidx")})
